@@ -258,6 +258,7 @@ func c17(args []string) error {
 			return P
 		}
 		pairs := []string{}
+		mlsig := "none"
 		for j := 0; j < nrows; j++ {
 			for k := j + 1; k < nrows; k++ {
 				ds := dist.At(j, k)
@@ -284,6 +285,53 @@ func c17(args []string) error {
 					}
 					cells = append(cells, fmt.Sprintf("(%d%%nat, %d%%nat, %s)", a, b, coqList(lts)))
 				}
+				// signature of the recorded finding: the reported distance is a local maximum (all neighbour
+				// probes at +-1% and +-10% are lower) but a farther distance (x0.5, x2 or a grid point) has a higher likelihood
+				if len(probes) > 7 {
+					ll := make([]float64, len(probes))
+					for l := 0; l < L; l++ {
+						keep := true
+						if cs.rmgaps {
+							for a := 0; a < nrows; a++ {
+								if strings.IndexByte(aaLetters, cs.seqs[a][l]) < 0 {
+									keep = false
+								}
+							}
+						}
+						a := strings.IndexByte(aaLetters, cs.seqs[j][l])
+						b := strings.IndexByte(aaLetters, cs.seqs[k][l])
+						if !keep || a < 0 || b < 0 {
+							continue
+						}
+						wt := 1.0
+						if cs.weights != nil {
+							wt = cs.weights[l].f()
+						}
+						for q := range probes {
+							ll[q] += wt * math.Log(pm.Pi(a)*Ps[q][a][b])
+						}
+					}
+					tot := 0.0
+					for q := range ll {
+						if q > 0 && math.Abs(ll[q]) > tot {
+							tot = math.Abs(ll[q])
+						}
+					}
+					local, grid := true, false
+					for q := 1; q < len(probes); q++ {
+						if q <= 4 && ll[q] > ll[0]+1e-9*tot {
+							local = false
+						}
+						if q > 4 && ll[q] > ll[0]+1e-9*tot {
+							grid = true
+						}
+					}
+					if local && grid && mlsig == "none" {
+						mlsig = "local-maximum-below-a-grid-point"
+					} else if !local {
+						mlsig = "not-a-local-maximum"
+					}
+				}
 				pt := make([]string, len(probes))
 				for q, d := range probes {
 					pt[q] = flTerm(d)
@@ -291,6 +339,7 @@ func c17(args []string) error {
 				pairs = append(pairs, fmt.Sprintf("(%d%%nat, %d%%nat, %s, %s)", j, k, coqList(pt), coqList(cells)))
 			}
 		}
+		meta["mlsig"] = mlsig
 		Ph := pmat(0.5)
 		prow, pcol := make([]string, 20), make([]string, 20)
 		for k := 0; k < 20; k++ {
